@@ -934,6 +934,35 @@ impl Sim {
                     CtxKind::Restart => props.push("C16"),
                     _ => {}
                 }
+                // which events does the answer hold that it should not (or lack)? Two events of one
+                // replaceable address in one answer speak for C09; an event covered by an accepted
+                // deletion of its author for C11; an ephemeral one for C18
+                let ids_of = |v: &str| -> Vec<B32> { v.split(|c: char| c == ',' || c == ' ').filter_map(|h| unhex32(h).ok()).collect() };
+                let got_ids = ids_of(got);
+                let want_ids = ids_of(want);
+                let mut addrs: BTreeSet<AddrKey> = BTreeSet::new();
+                let mut two_at_one_address = false;
+                for id in &got_ids {
+                    if let Some(e) = self.model.events.get(id) {
+                        if let Some(a) = e.addr() {
+                            if !addrs.insert(a) {
+                                two_at_one_address = true;
+                            }
+                        }
+                        if !want_ids.contains(id) {
+                            if is_ephemeral(e.kind) && !props.contains(&"C18") {
+                                props.push("C18");
+                            }
+                            let covered = self.model.deleted_ids.contains(id) || e.addr().and_then(|a| self.model.deleted_addrs.get(&a).copied()).map(|t| e.at <= t).unwrap_or(false);
+                            if covered && !props.contains(&"C11") {
+                                props.push("C11");
+                            }
+                        }
+                    }
+                }
+                if two_at_one_address && !props.contains(&"C09") {
+                    props.push("C09");
+                }
             }
             "extra" => {
                 clause = "extra-table";
@@ -1436,7 +1465,8 @@ impl Sim {
             let len = f.metadata()?.len();
             // whole chunks, as the store itself grows the file, and little room: the next stores
             // have to grow it
-            let new_len = (end + 2047) / 2048 * 2048;
+            let chunk: u64 = if crate::check::release_build() { 4 * 1024 * 1024 } else { 2048 };
+            let new_len = (end + chunk - 1) / chunk * chunk;
             if new_len > len {
                 f.set_len(new_len)?;
             }
